@@ -58,6 +58,9 @@ structure Entry where
   cid      : Nat
   ctx      : Ctx
   timerKey : Nat
+  /-- `deadline_remainder` (ns): how much of the time until the deadline the timer has not been armed with yet;
+  nonzero only for deadlines further away than the clamp -/
+  remainder : Nat
 deriving Repr, DecidableEq
 
 structure St where
@@ -270,7 +273,7 @@ def insertRequest (s : St) (now : Nat) (r : DReq) : Option St :=
     | (_, .panic, _) => some (emit { s with poisoned := true } (.panic (tid s) "DelayQueue::insert: invalid deadline"))
     | (q, .ok key, woke) =>
         -- an insert that moves the queue's `Sleep` earlier wakes the stored waker: a self-wake
-        let s := { s with timers := q, inflight := s.inflight ++ [{ id := r.id, cid := r.cid, ctx := r.ctx, timerKey := key }] }
+        let s := { s with timers := q, inflight := s.inflight ++ [{ id := r.id, cid := r.cid, ctx := r.ctx, timerKey := key, remainder := (r.ctx.deadline - now) - clampTimeout (r.ctx.deadline - now) }] }
         some (if woke then wakeDispatch s else s)
 
 /-! ### the write pump -/
@@ -383,17 +386,68 @@ def pollWriteCancel (s : St) : St × PW Unit :=
       let (s, ok) := tSend s (.cancel e.id e.ctx.trace)
       if ok then (s, .some ()) else (s, .err .write)
 
-/-- `in_flight_requests.poll_expired`: `true` = `Ready(Some(_))`. -/
-def pollExpired (s : St) (now : Nat) : St × Bool :=
-  match s.timers.pollExpired now with
+/-- The timer of request `id` fired while `deadline_remainder` is nonzero: the entry gets the new timer key and what
+is left of the remainder. -/
+def rearmEntry (id key t : Nat) (x : Entry) : Entry :=
+  if x.id == id then { x with timerKey := key, remainder := x.remainder - t } else x
+
+/-- One iteration of the loop of `in_flight_requests.poll_expired`. -/
+inductive ExpStep where
+  | again (s : St)                 -- `continue`: a timer was re-armed
+  | done (s : St) (yielded : Bool) -- `true` = `Ready(Some(_))`
+
+/-- the state after the iteration -/
+def ExpStep.st : ExpStep → St
+  | .again s => s
+  | .done s _ => s
+
+/-- What `poll_expired` does with the result `r` of re-arming (`DelayQueue::insert` with timeout `t`) the timer of
+tracked request `id`.  A panicking insert poisons the dispatch (`pumpWrite` stops; the state is frozen as it was
+before this iteration — it is never looked at again); otherwise the entry gets the new key and the rest of the
+remainder, the insert's self-wake is delivered, and the queue is polled again. -/
+def rearmWith (s : St) (id t : Nat) : DelayQ × DelayQ.InsertRes × Bool → ExpStep
+  | (_, .panic, _) =>
+      .done (emit { s with poisoned := true } (.panic (tid s) "DelayQueue::insert: invalid deadline")) false
+  | (q', .ok key, woke) =>
+      .again (if woke then wakeDispatch { s with timers := q', inflight := s.inflight.map (rearmEntry id key t) }
+              else { s with timers := q', inflight := s.inflight.map (rearmEntry id key t) })
+
+/-- The timer of tracked request `id` (entry `en`, `deadline_remainder ≠ 0`) fired; `q` is the queue after the poll.
+It is re-armed with (a clamped part of) the remainder. -/
+def rearm (s : St) (q : DelayQ) (now id : Nat) (en : Entry) : ExpStep :=
+  rearmWith s id (clampTimeout en.remainder) (q.insert now (clampTimeout en.remainder) id)
+
+/-- What one iteration of `poll_expired`'s loop does with the result of polling the `DelayQueue`. -/
+def expireWith (s : St) (now : Nat) : DelayQ × DelayQ.PollRes → ExpStep
   | (q, .expired e) =>
-      let s := { s with timers := q }
       match findEntry s e.val with
       | some en =>
-          let s := { s with inflight := s.inflight.filter (·.id != e.val) }
-          (osSend s en.cid .deadline, true)
-      | none => (s, true)
-  | (q, _) => ({ s with timers := q }, false)
+          if en.remainder != 0 then rearm s q now e.val en
+          else .done (osSend { s with timers := q, inflight := s.inflight.filter (·.id != e.val) } en.cid .deadline) true
+      | none => .done { s with timers := q } true
+  | (q, _) => .done { s with timers := q } false
+
+/-- One iteration of `poll_expired`'s loop.  A timer that fires for a tracked request whose `deadline_remainder` is
+nonzero is re-armed (`rearm`) and the queue is polled again; otherwise the request is failed with `DeadlineExceeded`.
+(`rearmWith` / `expireWith` take the queue operation's *result* as a parameter so that proofs can do their case
+analysis on a variable: a `match` whose discriminant is `DelayQ.insert …` itself makes Lean's kernel evaluate the
+timer wheel's range check on symbolic input.) -/
+def expireStep (s : St) (now : Nat) : ExpStep := expireWith s now (s.timers.pollExpired now)
+
+/-- The loop of `in_flight_requests.poll_expired`.  Every re-arm takes at least 1 ns off a remainder, so `expiredFuel`
+iterations suffice. -/
+def pollExpiredLoop : Nat → St → Nat → St × Bool
+  | 0, s, _ => (s, false)
+  | fuel + 1, s, now =>
+      match expireStep s now with
+      | .again s => pollExpiredLoop fuel s now
+      | .done s b => (s, b)
+
+/-- An upper bound on the iterations of `poll_expired`'s loop: the remainders still to be armed, plus one. -/
+def expiredFuel (s : St) : Nat := (s.inflight.map (·.remainder)).sum + 1
+
+/-- `in_flight_requests.poll_expired`: `true` = `Ready(Some(_))`. -/
+def pollExpired (s : St) (now : Nat) : St × Bool := pollExpiredLoop (expiredFuel s) s now
 
 def pumpWrite (s : St) (now : Nat) : St × PW Unit :=
   match pollWriteRequest s now with
@@ -410,6 +464,7 @@ def pumpWrite (s : St) (now : Nat) : St × PW Unit :=
           let canClosed := match canStatus with | .none => true | _ => false
           let (s, exp) := pollExpired s now
           if exp then (s, .some ())
+          else if s.poisoned then (s, .spin)      -- the re-arming `insert` panicked
           else if reqClosed && canClosed then
             match tClose s with
             | (s, .pending) => (s, .pending)
